@@ -259,6 +259,9 @@ def op(cfg, depth, names=None, opnd=None):
                                                              st.sampled_from(['<', '>', '^', '']), st.sampled_from(['', '3', '9', '14']),
                                                              st.sampled_from(['', '', ':red', ':bold;bg_blue', ':underline', ':[1;3'])).map(''.join)}),
         'q_misc': st.fixed_dictionaries({'op': st.just('q_misc'), 'x': opd}),
+        'setansi': st.fixed_dictionaries({'op': st.just('setansi'), 't': ansi_text(cfg)}),
+        'applymatch': st.fixed_dictionaries({'op': st.just('applymatch'), 'pat': st.sampled_from(['a', 'a(b)?', '(a|b)+', '[A-Z]', ' ', '.', '(.)(.)', 'a*', 'b']),
+                                             'g': st.integers(0, 2), 's': specs(cfg, 1, 2)}),
     }
     return st.sampled_from(names).flatmap(lambda n: table[n])
 
